@@ -219,28 +219,38 @@ class ContiguousBlockAllocator():
             return None
 
     def reserve(self, addr, size=1, warn=True):
-        if self._array[addr] is None:
+        rel = addr - self.addr_offset
+        if size < 1 or addr < self.pos or rel + size > self.size:
+            raise ValueError(
+                f'block ({addr}, {size}) is not inside the '
+                f'range [{self.pos}, {self.addr_offset + self.size})')
+        block = self._array[rel]
+        if block is None:
             block = self._find_next(addr)
-        else:
-            block = self._array[addr]
         if block is not None and block.used and addr + size > block.start:
             if warn:
                 _logger.warning(
                     f'The block at ({addr}, {size}) is '
                     'already in use and cannot be reserved.')
-        elif block.start == addr:
+            return None
+        if block is not None and block.start == addr:
+            if size > block.size:
+                # The free block at addr is followed by a used one.
+                if warn:
+                    _logger.warning(
+                        f'The block at ({addr}, {size}) is '
+                        'already in use and cannot be reserved.')
+                return None
             return self._reserve(addr, size, block)
 
         block = self._find_previous(addr)
-        if block is not None and block.used and block.start + block.size > addr:
+        if block is None or block.used and block.start + block.size > addr:
             if warn:
                 _logger.warning(
                     f'The block at ({addr}, {size}) is '
                     'already in use and cannot be reserved')
-        else:
-            return self._reserve(addr, size, None, block)
-
-        return None
+            return None
+        return self._reserve(addr, size, None, block)
 
     def free(self, addr):
         # // this 'if' prevents an error if a Buffer object is freed twice
